@@ -10,8 +10,8 @@ import (
 func init() {
 	register(&Property{
 		Meta: PropMeta{
-			ID:    "C18",
-			Level: "other",
+			ID:          "C18",
+			Level:       "other",
 			Explanation: "Structural necessary conditions of 'completion offers exactly the valid continuations', decided on the SSA of /repo for all paths: (SORTED) every return of complete passes sort.Sort on the result (and the order-taint rule of C15 covers the two map ranges feeding it); (FILTER) an option is offered exactly under HasPrefix(lookup key, typed prefix) ∧ ¬Hidden (plus the short-form bookkeeping), the offered item is the delimiter plus the *lookup key* (the namespaced name the parser accepts), a command exactly under ¬Hidden ∧ HasPrefix(Name, prefix) (∧ not completion's own data), with no further guard; (TOKENS) completion recognises option syntax only through the parser's own helpers argumentIsOption / argumentStartsOption / stripOptionPrefix / splitOption, resolves options and commands by lookups in the same parseState tables filled by fillParseState, and skips a following word as an option's argument only when the option takes an argument that is not optional — the parser's own condition for consuming the next token; (REATTACH) completeValue prefixes every returned item with the given prefix, and the three call sites pass the spelling typed so far: \"\" for a separate word, prefix + first rune with the remainder taken after the rune's encoded width, and prefix + name + separator with the inline argument; (NOEXEC) nothing reachable from complete sets an option, calls a callback or dispatches a command; (NP) panic-freedom of the functions reachable from complete.",
 			NotDecided:  "agreement of completion's prefix walk with the parser's on every prefix — a relation between two procedures over all inputs; only the shared helpers, tables and the argument-skipping condition are checked.",
 			Trusted:     []string{"go/ssa lowering", "go/types", "sort.Sort", "strings.HasPrefix"},
@@ -60,7 +60,7 @@ func runC18(c *Ctx, r *Report, tier string) {
 		var key, opt, table string
 		for _, l := range c.depsOf(con, in) {
 			if l.Pos && strings.HasPrefix(l.Term, "next(range(lookup.") && strings.HasSuffix(l.Term, "#0") {
-				table = l.Term[len("next(range(") : strings.Index(l.Term, "(&")]
+				table = l.Term[len("next(range("):strings.Index(l.Term, "(&")]
 				base := l.Term[:len(l.Term)-2]
 				key, opt = base+"#1", base+"#2"
 			}
